@@ -50,6 +50,7 @@ type stressResult struct {
 	Retained   int64
 	DupFlagged int64
 	LastWords  int64
+	Clears     int64
 	Inconcl    string
 }
 
@@ -272,6 +273,12 @@ func runStress(cfg stressCfg) *stressResult {
 				}
 				c.SendPacket(pk)
 				atomic.AddInt64(&published, 1)
+				if cfg.Retained && t > 0 && r.Intn(10) == 0 {
+					// a retained publish with an empty payload clears what is stored for the topic (it is
+					// forwarded like any message and recognised by its empty payload; it takes no sequence number)
+					c.SendPacket(&rc.Packet{Type: rc.PUBLISH, Topic: []byte(topicName(p, t)), Retain: true})
+					atomic.AddInt64(&res.Clears, 1)
+				}
 				if m%16 == 15 {
 					// keep the number of unacknowledged publishes bounded
 					want := acks
@@ -380,6 +387,9 @@ func runStress(cfg stressCfg) *stressResult {
 					}
 					for _, e := range c.Log() {
 						if e.P.Type == rc.PUBLISH {
+							if len(e.P.Payload) == 0 {
+								continue // a clearing publish
+							}
 							if _, _, ok := spec.ParsePayload(e.P.Payload); !ok {
 								res.viol("c17:payload", fmt.Sprintf("%s: PUBLISH on %q (retain=%v) with a payload that fails its CRC (%d bytes)", name, e.P.Topic, e.P.Retain, len(e.P.Payload)))
 							}
@@ -461,6 +471,9 @@ func runStress(cfg stressCfg) *stressResult {
 				continue
 			}
 			res.Received++
+			if len(e.P.Payload) == 0 && !e.P.Retain {
+				continue // a clearing publish, forwarded live
+			}
 			uid, seq, ok := spec.ParsePayload(e.P.Payload)
 			if !ok {
 				res.viol("c17:payload", fmt.Sprintf("%s: PUBLISH on %q with a payload that fails its CRC (%d bytes)", s.name, e.P.Topic, len(e.P.Payload)))
